@@ -384,6 +384,11 @@ func c18Scens(tier string) []e1Scen {
 				alpha = []sym{{T: 0, D: "f", K: "n"}, {T: 0, D: "q", K: "n"}, {T: 0, D: "q", K: "n", Sz: 3}, {T: 0, D: "S", K: "R"}, {T: 0, D: "f", K: "r"}}
 			}
 			out = append(out, e1Scen{Prop: "C18", Cfg: cfg, Alpha: alpha, Depth: depth, Mode: "tree", Pre: 0, Name: fmt.Sprintf("size-tree-%d", lim), Start: 0, Query: "", Period: 1})
+			if lim%6 == 4 {
+				// ... and one unit that is larger than the limit all by itself
+				big := append(append([]sym{}, alpha[:4]...), sym{T: 0, D: "f", K: "n", Sz: 70})
+				out = append(out, e1Scen{Prop: "C18", Cfg: cfg, Alpha: big, Depth: depth, Mode: "tree", Name: fmt.Sprintf("size-tree-oversized-unit-%d", lim), Period: 1})
+			}
 		}
 		// video + audio: the bytes of every track count towards the limit
 		for lim := 40; lim <= 60; lim += 2 {
